@@ -457,21 +457,20 @@ where
             0,
             false,
         );
+        let mut stored_end = 0usize; // positions [0, stored_end) are in the shared index
         for thread_index in 1..num_threads {
             let res = spawner_and_input.view(|input_and_params: &(SliceW, BrotliEncoderParams)| {
                 let range = get_range(thread_index - 1, num_threads, input_and_params.0.len());
                 let overlap = hasher.StoreLookahead().wrapping_sub(1);
-                if range.end - range.start > overlap {
+                // the job whose prefix ends at range.end indexes [0, range.end - overlap) itself
+                if range.end > overlap && range.end - overlap > stored_end {
                     hasher.BulkStoreRange(
                         input_and_params.0.slice(),
                         usize::MAX,
-                        if range.start > overlap {
-                            range.start - overlap
-                        } else {
-                            0
-                        },
+                        stored_end,
                         range.end - overlap,
                     );
+                    stored_end = range.end - overlap;
                 }
             });
             if let Err(_e) = res {
